@@ -32,8 +32,8 @@ theorem descend_noU (v : String) : ∀ (ops : List Operand) (ch : List (Nat × A
       · exact h _ List.mem_cons_self
       · exact ih _ (fun o ho => h o (List.mem_cons_of_mem _ ho)) o ho
 
-theorem uLoop_noU (v : String) (parts : List Operand) (h : ∀ o ∈ parts, o.uShape = none) : uLoop v parts = none := by
-  unfold uLoop
+theorem uLeafLoop_noU (v : String) (parts : List Operand) (h : ∀ o ∈ parts, o.uShape = none) : uLeafLoop v parts = none := by
+  unfold uLeafLoop
   split
   · rename_i o
     rw [h o List.mem_cons_self]
@@ -86,7 +86,7 @@ theorem runK_ind (declared : Bool) (noU : Bool) (P : List KEv → Prop) (Q : Str
       have key : ∀ (l : List ((Int × List (Nat × ATree)) × Nat)) (acc : ATree × List KEv), Q v acc.2 →
           Q v (l.foldl (fun (acc : ATree × List KEv) y =>
             ((runK declared rest zr acc.1 (descend v ops y.1.2)).1,
-              acc.2 ++ (if (uLoop v (ops.filter fun o => o.ranks.head? == some v)).isSome then
+              acc.2 ++ (if (uLeafLoop v (ops.filter fun o => o.ranks.head? == some v)).isSome then
                   iterEvU v (runK declared rest zr acc.1 (descend v ops y.1.2)).2
                 else iterEv v y.1.1 (usePos (decide ((ops.filter fun o => o.ranks.head? == some v).length ≥ 2)) y.2 y.1.2)
                   (runK declared rest zr acc.1 (descend v ops y.1.2)).2))) acc).2 := by
@@ -105,7 +105,7 @@ theorem runK_ind (declared : Bool) (noU : Bool) (P : List KEv → Prop) (Q : Str
             cases hn : noU with
             | false => rfl
             | true =>
-              have := uLoop_noU v (ops.filter fun o => o.ranks.head? == some v)
+              have := uLeafLoop_noU v (ops.filter fun o => o.ranks.head? == some v)
                 (fun o ho => hU hn o (List.mem_filter.1 ho).1)
               rw [this] at hsome; cases hsome
           · exact hiter v _ _ _ (ih _ _ _ (hUd _))
